@@ -764,38 +764,26 @@ func c20Replies(c *kit.Ctx, m *storeModel, r4 *kit.Rule) {
 }
 
 func c20Shutdown(c *kit.Ctx, m *storeModel, r5 *kit.Rule) {
-	// the run function: subscribes and closes the database
-	for _, f := range c.P.Funcs("store") {
-		if f.Body == nil || f.Decl == nil {
-			continue
-		}
-		info := f.Info()
-		var closeCall *ast.CallExpr
-		subs := 0
-		for _, call := range f.AllCalls(false) {
-			q := kit.QualName(kit.Callee(info, call))
-			if q == natsPkg+".(*Conn).Subscribe" {
-				subs++
-			}
-			if q == "database/sql.(*DB).Close" {
-				closeCall = call
-			}
-			if cf := f.CalleeFunc(call); cf != nil {
-				for _, inner := range cf.AllCalls(false) {
-					if kit.CallIs(cf.Info(), inner, "database/sql.(*DB).Close") && len(cf.Body.List) <= 2 {
-						closeCall = call
-					}
+	funcs := c.P.Funcs("store")
+	// helpers reachable from f through static calls inside the package (f first)
+	reach := func(f *kit.Func) []*kit.Func {
+		out := []*kit.Func{f}
+		seen := map[*kit.Func]bool{f: true}
+		for i := 0; i < len(out) && i < 40; i++ {
+			for _, call := range out[i].AllCalls(false) {
+				if cf := out[i].CalleeFunc(call); cf != nil && cf.Body != nil && cf.Decl != nil && cf.PkgRel() == "store" && !seen[cf] {
+					seen[cf] = true
+					out = append(out, cf)
 				}
 			}
 		}
-		if subs == 0 || closeCall == nil {
-			continue
-		}
-		c.Analysed(f)
-		o := r5.Ob(f, closeCall, "shutdown order", "every subscription is unsubscribed before the database is closed")
-		// the loop over a map of subscriptions calling Unsubscribe
+		return out
+	}
+	// unsubLoop: a range over a map of subscriptions whose body unsubscribes every entry
+	unsubLoop := func(g *kit.Func) *ast.RangeStmt {
+		info := g.Info()
 		var loop *ast.RangeStmt
-		ast.Inspect(f.Body, func(n ast.Node) bool {
+		ast.Inspect(g.Body, func(n ast.Node) bool {
 			rs, ok := n.(*ast.RangeStmt)
 			if !ok {
 				return true
@@ -809,7 +797,7 @@ func c20Shutdown(c *kit.Ctx, m *storeModel, r5 *kit.Rule) {
 				ast.Inspect(st, func(x ast.Node) bool {
 					if call, ok := x.(*ast.CallExpr); ok && kit.CallIs(info, call, natsPkg+".(*Subscription).Unsubscribe", natsPkg+".(*Subscription).Drain") {
 						// must not sit under an if/else body
-						cond := f.Enclosing(call, func(p ast.Node) bool {
+						cond := g.Enclosing(call, func(p ast.Node) bool {
 							if is, ok := p.(*ast.IfStmt); ok {
 								return is.Body.Pos() <= call.Pos() && call.End() <= is.End() && !(is.Init != nil && is.Init.Pos() <= call.Pos() && call.End() <= is.Init.End())
 							}
@@ -834,33 +822,119 @@ func c20Shutdown(c *kit.Ctx, m *storeModel, r5 *kit.Rule) {
 			}
 			return true
 		})
+		return loop
+	}
+	// the run function: closes the database and (itself or through helpers) subscribes
+	for _, f := range funcs {
+		if f.Body == nil || f.Decl == nil {
+			continue
+		}
+		info := f.Info()
+		var closeCall *ast.CallExpr
+		for _, call := range f.AllCalls(false) {
+			if kit.CallIs(info, call, "database/sql.(*DB).Close") {
+				closeCall = call
+			}
+			if cf := f.CalleeFunc(call); cf != nil && cf.Body != nil {
+				for _, inner := range cf.AllCalls(false) {
+					if kit.CallIs(cf.Info(), inner, "database/sql.(*DB).Close") && len(cf.Body.List) <= 2 {
+						closeCall = call
+					}
+				}
+			}
+		}
+		if closeCall == nil {
+			continue
+		}
+		type subSite struct {
+			g    *kit.Func
+			call *ast.CallExpr
+		}
+		var subs []subSite
+		for _, g := range reach(f) {
+			for _, call := range g.AllCalls(false) {
+				if kit.CallIs(g.Info(), call, natsPkg+".(*Conn).Subscribe") {
+					subs = append(subs, subSite{g, call})
+				}
+			}
+		}
+		if len(subs) == 0 {
+			continue
+		}
+		c.Analysed(f)
+		o := r5.Ob(f, closeCall, "shutdown order", "every subscription is unsubscribed before the database is closed")
+		// the unsubscribe point in f: the loop itself, or the call of a helper that runs the loop on every path
+		var loop *ast.RangeStmt
+		var loopIn *kit.Func
+		var point ast.Node
+		if l := unsubLoop(f); l != nil {
+			loop, loopIn, point = l, f, l.X
+		} else {
+			for _, call := range f.AllCalls(false) {
+				g := f.CalleeFunc(call)
+				if g == nil || g.Body == nil || g.Decl == nil || g.PkgRel() != "store" {
+					continue
+				}
+				if l := unsubLoop(g); l != nil {
+					// the loop is a top-level statement of the helper and nothing returns before it
+					top, early := false, false
+					for _, st := range g.Body.List {
+						if st == ast.Stmt(l) {
+							top = true
+							break
+						}
+						ast.Inspect(st, func(x ast.Node) bool {
+							if _, ok := x.(*ast.ReturnStmt); ok {
+								early = true
+							}
+							return true
+						})
+					}
+					if top && !early {
+						loop, loopIn, point = l, g, call
+						c.Analysed(g)
+					}
+				}
+			}
+		}
 		if loop == nil {
 			o.Violation("no loop unsubscribes every subscription of the store before Close: a handler can run against a closed database")
 			continue
 		}
-		// every subscription created in f is stored in that map
-		stored := true
-		for _, call := range f.AllCalls(false) {
-			if kit.CallIs(info, call, natsPkg+".(*Conn).Subscribe") {
-				as, ok := c.P.Parent(f.File, call).(*ast.AssignStmt)
-				if !ok || len(as.Lhs) == 0 {
-					stored = false
-					continue
+		mapObj := kit.ObjOf(loopIn.Info(), loop.X)
+		// every subscription created on behalf of f is stored in that map
+		stored, undec := true, ""
+		for _, sb := range subs {
+			as, ok := c.P.Parent(sb.g.File, sb.call).(*ast.AssignStmt)
+			if !ok || len(as.Lhs) == 0 {
+				stored = false
+				continue
+			}
+			ix, ok := ast.Unparen(as.Lhs[0]).(*ast.IndexExpr)
+			if !ok {
+				stored = false
+				continue
+			}
+			switch {
+			case sb.g == loopIn && kit.SameExpr(sb.g.Info(), ix.X, loop.X):
+			case mapObj != nil && kit.ObjOf(sb.g.Info(), ix.X) == mapObj:
+				if v, isVar := mapObj.(*types.Var); !isVar || !v.IsField() {
+					undec = "the map `" + sb.g.Str(ix.X) + "` is not a field; cannot relate it to the map unsubscribed in " + loopIn.Name
 				}
-				ix, ok := ast.Unparen(as.Lhs[0]).(*ast.IndexExpr)
-				if !ok || !kit.SameExpr(info, ix.X, loop.X) {
-					stored = false
-				}
+			default:
+				stored = false
 			}
 		}
 		g := c.P.Graph(f)
 		switch {
 		case !stored:
 			o.Violation("a subscription is not recorded in the map that the shutdown loop unsubscribes")
-		case !(loop.End() <= closeCall.Pos()) || !g.NodeDominates(loop.X, closeCall):
+		case !(point.End() <= closeCall.Pos()) || !g.NodeDominates(point, closeCall):
 			o.Violation("the database is closed on a path that has not unsubscribed the handlers first")
+		case undec != "":
+			o.Undecided("%s", undec)
 		default:
-			o.OK("range over %s with Unsubscribe dominates Close", f.Str(loop.X))
+			o.OK("range over %s with Unsubscribe (%s) dominates Close; %d subscriptions recorded in it", loopIn.Str(loop.X), loopIn.Name, len(subs))
 		}
 	}
 }
